@@ -48,3 +48,22 @@ pub fn c13_len_content_length_sequence() {
     kani::cover!(true, "end");
     std::mem::forget(s);
 }
+
+/// Unreachability stub for *re-queueing* a stream for connection capacity: popping
+/// (`set_queued(false)`) works, pushing (`set_queued(true)`) panics.  Used in queries whose
+/// pre-state guarantees that the popped stream gets everything it wants, so correct code
+/// never re-queues it; it also keeps the queue head concrete for the loop's next `pop`.
+pub(crate) fn stub_capacity_requeue_unreachable(stream: &mut Stream, val: bool) {
+    if val {
+        panic!("UNREACHABLE-STUB stream re-queued in pending_capacity");
+    }
+    stream.is_pending_send_capacity = false;
+}
+
+/// same for the send queue (`pending_send`): re-scheduling panics, popping works
+pub(crate) fn stub_send_requeue_unreachable(stream: &mut Stream, val: bool) {
+    if val {
+        panic!("UNREACHABLE-STUB stream re-queued in pending_send");
+    }
+    stream.is_pending_send = false;
+}
